@@ -373,8 +373,8 @@ def mut_alphabet(v, seed):
 
 def bfs_cfg(tier):
     if tier == 'quick':
-        return [('plain', 'a', 2), ('plain', 'a-a', 2), ('rainbow', 'ab', 2), ('plain', '', 2), ('restart1', '', 1), ('restart2', '', 1)]
-    return [('plain', 'a', 3), ('plain', 'a-a', 2), ('rainbow', 'ab', 3), ('plain', '', 3), ('rainbow', 'a-a', 2), ('plain', 'ab', 3), ('restart1', '', 2), ('restart2', '', 2)]
+        return [('plain', 'a', 2), ('plain', 'a-a', 2), ('rainbow', 'ab', 2), ('plain', '', 2), ('restart1', '', 1), ('restart2', '', 1), ('dup1', '', 1), ('dup2', '', 1)]
+    return [('plain', 'a', 3), ('plain', 'a-a', 2), ('rainbow', 'ab', 3), ('plain', '', 3), ('rainbow', 'a-a', 2), ('plain', 'ab', 3), ('restart1', '', 2), ('restart2', '', 2), ('dup1', '', 2), ('dup2', '', 2)]
 
 
 def sweep_pool(tier, seed):
@@ -458,6 +458,8 @@ def run_task(task, acc):
             return ops[part::PARTS]
         return ops
     seen = {}
+    seed_hists['dup1'] = explore.dup_hist('dup1', 'a-a', seed)
+    seed_hists['dup2'] = explore.dup_hist('dup2', 'a-a', seed)
     h0 = seed_hists[lay] if lay in seed_hists else [[lay, text]]
     frontier = [h0]
     seen[model.canon_hash(build(h0))] = True
